@@ -28,6 +28,9 @@ MODEL_HEADER = ("From Coq Require Import List ZArith Bool.\nFrom QV Require Impo
                 "Import ListNotations.\nLocal Open Scope Z_scope.\n")
 
 
+CTOR_PARAMS = {name: ps for name, nq, ps in qtrace.catalogue()}
+
+
 # --------------------------------------------------------------------------- bookkeeping
 def gate_pool(rng, nq):
     from qibo import gates
@@ -48,6 +51,18 @@ def gate_pool(rng, nq):
         lambda: gates.H(*q(1)),
         lambda: gates.CNOT(*q(2)),
     ]
+
+    def ctrl(maker, npar):
+        # gate made with controlled_by (one control: specialises to CU1/CU2/CU3/CRX...; two controls: generic)
+        def f():
+            qs = q(min(nq, rng.choice([2, 3])))
+            t = tr()
+            g = maker(qs[0], *[iv() for _ in range(npar)], trainable=t).controlled_by(*qs[1:])
+            g._expected_trainable = t
+            return g
+        return f
+    pool += [ctrl(gates.U1, 1), ctrl(gates.U2, 2), ctrl(gates.U3, 3), ctrl(gates.RX, 1), ctrl(gates.RY, 1), ctrl(gates.RZ, 1),
+             ctrl(gates.GPI, 1), ctrl(gates.PRX, 2)]
     return pool
 
 
@@ -64,7 +79,7 @@ def gate_vals(g):
 
 
 def coq_gates(pg):
-    return "[" + "; ".join(f"mkpg {g.nparams}%nat {'true' if g.trainable else 'false'} [{'; '.join(str(v) for v in gate_vals(g))}]" for g in pg) + "]"
+    return "[" + "; ".join(f"mkpg {g.nparams}%nat {'true' if getattr(g, '_expected_trainable', g.trainable) else 'false'} [{'; '.join(str(v) for v in gate_vals(g))}]" for g in pg) + "]"
 
 
 def coq_zlist(xs):
@@ -128,8 +143,10 @@ def bookkeeping(run, rng, ncases):
         got_list = [flat_of(g.parameters) for g in tg] if len(got_list) != len(tg) else [flat_of(p) for p in c.get_parameters("list")]
         got_dict = c.get_parameters("dict")
         dict_ok = list(got_dict.keys()) == tg and all(flat_of(v) == gate_vals(g) for g, v in got_dict.items())
+        # constructor keyword arguments kept for re-creating the gate (dagger, on_qubits, raw ...) follow the
+        # current values: names are the constructor's own parameter names (from its signature), not g.parameter_names
         kw_ok = all(all((k not in g.init_kwargs) or flat_of([g.init_kwargs[k]]) == flat_of([v])
-                        for k, v in zip(([g.parameter_names] if isinstance(g.parameter_names, str) else g.parameter_names), g.parameters))
+                        for k, v in zip(CTOR_PARAMS.get(type(g).__name__, []), g.parameters))
                     for g in pg if type(g).__name__ != "Unitary")
         exprs.append(model)
         after = coq_gates(pg)
@@ -189,11 +206,11 @@ def views(run, rng, ncases):
     for ci in range(ncases):
         nq = rng.randint(2, 3)
         spec = []
-        kinds = ["RX", "RY", "RZ", "U3", "fSim", "CRX", "PRX", "GPI2", "U1q", "RXX", "MS", "GIVENS", "CU2", "U2", "H", "CNOT"]
+        cat = {name: (a, len(ps)) for name, a, ps in qtrace.catalogue() if (ps and a <= nq) or name in ("H", "CNOT")}
+        kinds = sorted(cat)            # every parametrised class of gates.py (+ two fixed gates)
         for _ in range(rng.randint(2, 6)):
-            k = rng.choice(kinds)
-            arity = 2 if k in ("fSim", "CRX", "RXX", "MS", "GIVENS", "CU2", "CNOT") else 1
-            npar = {"U3": 3, "fSim": 2, "PRX": 2, "U1q": 2, "MS": 3, "CU2": 2, "U2": 2, "H": 0, "CNOT": 0}.get(k, 1)
+            k = kinds[(ci + rng.randrange(len(kinds))) % len(kinds)] if rng.random() < 0.5 else kinds[ci % len(kinds)]
+            arity, npar = cat[k]
             spec.append((k, rng.sample(range(nq), arity), npar, rng.random() < 0.7))
 
         def build(values):
